@@ -149,6 +149,14 @@ def check_rot(case, ctx):
     if th > 0:
         check_axang(ctx, ax, th, sc, q, R)
     check_explog_pow(ctx, ax, th, sc, a, b, q, R)
+    # the same quaternion kept scalar-last: axis-angle, Euler angles and matrix are properties of the rotation, not of the storage order
+    r = "axang/Quaternion"
+    out = call(lambda: [(np.asarray(X.to_axang()[0], float), float(X.to_axang()[1]), np.asarray(X.to_angles(), float), np.asarray(X.to_DCM(), float))
+                        for X in (ahrs.Quaternion(np.r_[q[1:], q[0]], order="S"), ahrs.Quaternion(q.copy()))])
+    if ctx.returned(out, clause="no-exception[order=S]", route=r):
+        (axS, thS, angS, RS), (axH, thH, angH, RH) = out.value
+        ctx.le("order='S': to_axang() describes the same rotation", rotvec_err(axS, thS, axH, thH) if th > 0 else abs(thS - thH), 1e-12, {"S": [axS, thS], "H": [axH, thH]}, route=r)
+        ctx.le("order='S': same matrix and Euler angles", max(np.abs(RS - RH).max(), float(np.nanmax(np.abs((angS - angH + np.pi) % (2 * np.pi) - np.pi))) if np.all(np.isfinite(angH)) else 0.0), 1e-12, route=r)
 
 
 def check_axang(ctx, ax, th, sc, q, R):
